@@ -534,7 +534,7 @@ func init() {
 // [add N, remember all | none | even slots][delete S, add k remembering all][delete one live leaf]
 // (and for C08 an undo of the last block after each step), S = every subset of size <= 2 plus
 // every subset of the window of slots 2..9.
-func lightMedium(c *Ctx, prop string, undo bool) {
+func lightMedium(c *Ctx, prop string, undo bool, collect ...string) {
 	Ns := []int{12}
 	if c.Thorough() {
 		Ns = []int{11, 12, 13, 16, 17}
@@ -549,6 +549,9 @@ func lightMedium(c *Ctx, prop string, undo bool) {
 		ub = 1
 	}
 	fam := &LightFamily{Nmax: 64, UndoBud: ub, Prop: prop, RemMode: rm}
+	if len(collect) > 0 {
+		fam.Collect = collect[0]
+	}
 	type job struct{ hist []Op }
 	var jobs []job
 	for _, N := range Ns {
